@@ -49,6 +49,7 @@ def registry(ctx, repo):
     ctx.rule("R1", "for every column name the validity intervals of all implementations (decorated or not, all modules) are pairwise disjoint")
     ctx.rule("R2", "no policy module defines the same function name twice (the later definition silently replaces the earlier one)")
     ctx.rule("R3", "decorator dates are ISO YYYY-MM-DD literals with start <= end")
+    ctx.rule("R4", "successive implementations of one column are adjacent: no hole of up to a month between the end of one and the start of the next (a date typo leaves the column undefined on those days)")
     byname = {}
     for r in repo.rules:
         if r.bad_decorator:
@@ -76,7 +77,14 @@ def registry(ctx, repo):
             ctx.ob("R1", ok=True, distinct=(nm,))
         for a, b in zip(rs, rs[1:]):
             gap = (b.start - a.end).days - 1
-            if 0 < gap < 400:
+            if gap <= 0:
+                continue
+            short = gap <= 31
+            ctx.ob("R4", ok=not short, distinct=(nm, a.qual, b.qual))
+            if short:
+                ctx.violation("R4", f"{nm}|{a.qual}|{b.qual}|gap", b.where,
+                              f"column {nm!r} has no implementation on the {gap} day(s) between {a.end_s} ({a.qual}) and {b.start_s} ({b.qual}): successive implementations are adjacent everywhere else, so on those days the column silently does not exist")
+            else:
                 ctx.info(f"column {nm}: no implementation between {a.end_s} and {b.start_s} ({gap} days)")
     for m in repo.policy_modules:
         ctx.ob("R2", ok=not m.dup_functions, distinct=m.rel)
@@ -179,6 +187,35 @@ def order_domain(ctx, repo):
     facts = __import__("staticlib.session", fromlist=["x"]).get_session(ctx.root).em.facts
     _selector(ctx, pe, facts.loader, "O2")
     _selector(ctx, pe, facts.rounding_loader, "O3")
+
+    # ---- O5 calendar arithmetic of the look-ups at other dates
+    ctx.rule("O5", "the loader moves dates by calendar fields (same day one year earlier with 29 Feb -> 28 Feb; 1 January of the year; the day before an entry) - never by a fixed number of days standing for a year or month")
+    loader = facts.loader
+    tds = [n for n in ast.walk(loader) if isinstance(n, ast.Call) and ast.unparse(n.func).endswith("timedelta")]
+    for n in tds:
+        days = None
+        for kw in n.keywords:
+            if kw.arg == "days":
+                days = kw.value
+        if days is None and n.args:
+            days = n.args[0]
+        weeks = any(kw.arg == "weeks" for kw in n.keywords)
+        lit = days.value if isinstance(days, ast.Constant) else None
+        ok = lit == 1 and not weeks
+        ctx.ob("O5", ok=ok, distinct=ast.unparse(n))
+        if not ok:
+            ctx.violation("O5", f"timedelta|{ast.unparse(n)}", pe.loc(n), f"`{ast.unparse(n)}` shifts a date by a fixed number of days; a prior-year / start-of-year look-up computed this way is off by a day in and after leap years")
+    src = ast.unparse(loader)
+    ok = ".replace(year=" in src and ".replace(month=1, day=1)" in src
+    ctx.ob("O5", ok=ok, distinct="replace")
+    if not ok and not [n for n in tds if not (isinstance((n.keywords[0].value if n.keywords else (n.args[0] if n.args else None)), ast.Constant))]:
+        if not any(f.rule == "O5" for f in ctx.findings):
+            raise AnalysisError("loader: prior-year / start-of-year dates are no longer computed with date.replace; O5 needs a re-read")
+    # the leap-day fallback (29 Feb -> 28 Feb) is present
+    ok = "day=dt.day - 1" in src or "day=28" in src or "day - 1" in src
+    ctx.ob("O5", ok=ok, distinct="leap-fallback")
+    if not ok and ".replace(year=" in src:
+        ctx.violation("O5", "leap-day-fallback", pe.loc(loader), "the prior-year look-up has no fallback for 29 February (date.replace raises ValueError there)")
 
     # ---- O4 conflict predicate
     sh = repo.module("shared.py")
